@@ -8,11 +8,7 @@ add("K-crc16-spec", ["C02", "C05", "C16"], "crc::verif_k::k_crc16_update_eq_spec
     functions=["crc::Crc16::update", "crc::Crc16::valid"],
     contract="ensures Crc16(s).update(b).0 == spec::crc16_step(s,b); valid() <=> state == 0; default state 0  -- all (s,b)", timeout=120)
 
-PROPERTIES.update({
-    "C02": {"level": "proof",
-            "text": "placeholder",
-            "note": "placeholder"},
-})
+
 
 D = "decode::verif_k::"
 RES_CONTRACT = ("decode::read_residuals: requires stream == RFC 9639 9.2.7 coding (method, partition order, per-partition Rice/escape/zero "
@@ -123,3 +119,18 @@ for h, fn in [("k_hdr_read_subset_crc8_gate", "stream::FrameHeader::read_subset"
         contract="CRC-8 gate: header released iff field parse Ok and CRC-8 (RFC polynomial) over exactly the header's bytes is 0" if "read" in h
         else "bytes delivered == header field bytes ++ CRC-8 (RFC polynomial) of those bytes",
         stubs=["stream::FrameHeader::parse (contract: K-hdr_parse_*)" if "read" in h else "stream::FrameHeader::build (contract: K-hdr_build_vs_rfc)"], timeout=200)
+
+
+# ---------------------------------------------------------------- claimed properties
+def P(pid, level, text, note, not_decided=()):
+    PROPERTIES[pid] = {"level": level, "text": text, "note": note, "not_decided": list(not_decided)}
+
+BASE_NOTE = ("Trusted: Kani/CBMC, Verus/Z3, rustc; bitstream-io under the contract in harness/bits.rs + harness/tape.rs; std, arrayvec, md5. "
+             "Stubbed callees are assumptions unless the evidence names the obligation that discharges their contract.")
+P("C03", "model_checking",
+  "Decoder contracts against an RFC 9639 stream generator written from the RFC: frame header parse proved for all 128-bit inputs; residual, subframe and "
+  "frame-body decoding proved per concrete grammar shape with all values symbolic on blocks of <= 6 samples; FIXED predictors complete, LPC for fixed coefficient vectors.",
+  BASE_NOTE, ["MD5 comparison in verify_reader (Frame::to_buf out of reach)", "blocks longer than 6 samples", "LPC with symbolic coefficients (SAT cannot match multipliers; Verus lemma L-LPC covers the arithmetic)"])
+P("C04", "model_checking",
+  "No-panic contracts on every decode function over an arbitrary field oracle with fault injection (all field values, all truncation points) on tiny blocks; header parsing for all 128-bit inputs.",
+  BASE_NOTE, ["termination (unwinding bounds only)", "peak memory", "reader front ends beyond FlacChannelReader"])
